@@ -27,14 +27,31 @@ type c17refCase struct {
 	IDs       [2]int  `json:"ids"`
 	Distinct  [2]bool `json:"distinct"`
 	DefsFirst bool    `json:"definitions_first"`
+	Spell     int     `json:"number_spelling,omitempty"`
 	Parse     string  `json:"parse"`
 	Position  string  `json:"position,omitempty"`
 	Input     string  `json:"input"`
 	What      string  `json:"what"`
 }
 
-func c17refText(assign []int, ids [2]int, distinct [2]bool, defsFirst bool, swap bool) string {
-	r := func(p int) string { return fmt.Sprintf("!%d", ids[assign[p]]) }
+// c17spell: how the numbers are written. 0 = plain decimal; 1 = one leading zero everywhere
+// (`!010` is node 10 for LLVM, never octal); 2 = leading zero in references only; 3 = two leading
+// zeros in definitions only.
+func c17refText(assign []int, ids [2]int, distinct [2]bool, defsFirst bool, swap bool, spell ...int) string {
+	sp := 0
+	if len(spell) > 0 {
+		sp = spell[0]
+	}
+	rz, dz := "", ""
+	switch sp {
+	case 1:
+		rz, dz = "0", "0"
+	case 2:
+		rz = "0"
+	case 3:
+		dz = "00"
+	}
+	r := func(p int) string { return fmt.Sprintf("!%s%d", rz, ids[assign[p]]) }
 	var defs, body strings.Builder
 	for k := 0; k < 2; k++ {
 		d := ""
@@ -45,7 +62,7 @@ func c17refText(assign []int, ids [2]int, distinct [2]bool, defsFirst bool, swap
 		if swap {
 			content = 1 - k
 		}
-		fmt.Fprintf(&defs, "!%d = %s!{!\"r%d\"}\n", ids[k], d, 100+content)
+		fmt.Fprintf(&defs, "!%s%d = %s!{!\"r%d\"}\n", dz, ids[k], d, 100+content)
 	}
 	tid, did := 50, 51
 	fmt.Fprintf(&body, "@g = global i32 0, !foo %s\n", r(0))
@@ -123,6 +140,7 @@ func c17refs(c *fw.Check) {
 		ids       [2]int
 		distinct  [2]bool
 		defsFirst bool
+		spell     int
 	}
 	var jobs []job
 	for mask := 0; mask < 1<<np; mask++ {
@@ -137,7 +155,19 @@ func c17refs(c *fw.Check) {
 						// quick: all assignments with one distinctness pattern, a third with all.
 						continue
 					}
-					jobs = append(jobs, job{assign, ids, [2]bool{dm&1 == 1, dm&2 == 2}, df})
+					jobs = append(jobs, job{assign, ids, [2]bool{dm&1 == 1, dm&2 == 2}, df, 0})
+				}
+			}
+		}
+		// numbers written with leading zeros (IDs whose octal reading is another ID of the module,
+		// and IDs that are no octal numbers at all)
+		for _, ids := range [][2]int{{8, 10}, {9, 11}} {
+			for _, df := range []bool{true, false} {
+				for spell := 1; spell <= 3; spell++ {
+					if c.Quick() && mask%2 != 0 && spell != 1 {
+						continue
+					}
+					jobs = append(jobs, job{assign, ids, [2]bool{false, true}, df, spell})
 				}
 			}
 		}
@@ -145,8 +175,8 @@ func c17refs(c *fw.Check) {
 	fw.ParallelFor(len(jobs), func(i int) {
 		j := jobs[i]
 		for pi, parse := range []string{"first", "same text again", "same references, definitions exchanged"} {
-			text := c17refText(j.assign, j.ids, j.distinct, j.defsFirst, pi == 2)
-			cs := c17refCase{Assign: j.assign, IDs: j.ids, Distinct: j.distinct, DefsFirst: j.defsFirst, Parse: parse, Input: text}
+			text := c17refText(j.assign, j.ids, j.distinct, j.defsFirst, pi == 2, j.spell)
+			cs := c17refCase{Spell: j.spell, Assign: j.assign, IDs: j.ids, Distinct: j.distinct, DefsFirst: j.defsFirst, Parse: parse, Input: text}
 			m, errs, pan := parseTry(text)
 			if errs != "" || pan != "" {
 				cs.What = "the parser does not accept the module: " + fw.Trunc(errs+pan, 300)
@@ -190,8 +220,10 @@ func c17refs(c *fw.Check) {
 	c.Valid(cases)
 	c.Extra["reference_position_modules"] = cases
 	c.Extra["reference_positions"] = np
-	if ok, e := fw.LLVMAccepts(c17refText(make([]int, np), [2]int{0, 1}, [2]bool{false, true}, false, false)); !ok && fw.HaveLLVM() {
-		fw.Fatalf("C17 reference-position module is not valid LLVM: %s", e)
+	for spell := 0; spell <= 3; spell++ {
+		if ok, e := fw.LLVMAccepts(c17refText(make([]int, np), [2]int{8, 10}, [2]bool{false, true}, false, false, spell)); !ok && fw.HaveLLVM() {
+			fw.Fatalf("C17 reference-position module (number spelling %d) is not valid LLVM: %s", spell, e)
+		}
 	}
 }
 
